@@ -120,6 +120,24 @@ Theorem table_emptied_keeps_working : forall (K V : Type) (keq : K -> K -> bool)
 Proof. exact TableProofs.T_emptied_keeps_working. Qed.
 Print Assumptions table_emptied_keeps_working.
 
+(* Table_New with initial pairs (later pairs win) and Table_Assign from another Table *)
+Theorem table_new_refines : forall (K V : Type) (keq : K -> K -> bool) (hash : K -> N),
+  (forall a b, keq a b = true <-> a = b) ->
+  forall (kvs : list (entry K V)),
+  exists t, t_new K V keq hash table_swap table_primes table_load_num table_load_den kvs = Some t /\
+    t_inv K V hash t /\
+    R K V t (fold_left (fun m kv => a_set K V keq m (fst kv) (snd kv)) kvs []).
+Proof. exact TableProofs.T_new_refines. Qed.
+Print Assumptions table_new_refines.
+
+Theorem table_assign_refines : forall (K V : Type) (keq : K -> K -> bool) (hash : K -> N),
+  (forall a b, keq a b = true <-> a = b) ->
+  forall (src : table K V) (m : amap K V), t_inv K V hash src -> R K V src m ->
+  exists t', t_assign_from K V keq hash table_swap table_primes table_load_num table_load_den src = Some t' /\
+    t_inv K V hash t' /\ R K V t' m.
+Proof. exact TableProofs.T_assign_refines. Qed.
+Print Assumptions table_assign_refines.
+
 (* 4. the rule of the pinned source, `if (j >= p)`, does NOT refine the map (defect D1, repaired) *)
 Theorem table_nonstrict_refuted :
   exists (hash : Z -> N) (ops : list (op Z Z)),
